@@ -18,6 +18,8 @@ import (
 	"context"
 	"errors"
 	"fmt"
+	"math"
+	"runtime"
 	"sort"
 	"strings"
 	"sync"
@@ -587,10 +589,12 @@ func c16MaxRowDefect(m *c16Model, f string, fcols map[uint64]struct{}) (uint64, 
 }
 
 const (
-	c16KMaxRow     = "MaxRow answers from fragment.maxRowID (raised only by Set, never lowered by Clear/ClearRow, not raised by Import)"
-	c16KMinRowFilt = "MinRow with filter scans only up to fragment.maxRowID (raised only by Set): rows written by Import are not seen"
-	c16KGBOffset   = "GroupBy limit+offset: limit is applied while reducing and offset afterwards (pages after the first come back short)"
-	c16KTimeLimit  = "Rows(time field, from/to, limit): the limit budget is shared by the views of a shard (rows of later views are dropped)"
+	c16KMaxRowHang  = "MaxRow with a filter that no row of a fragment starting at row 0 intersects never returns: fragment.maxRow counts a uint64 down past 0 (i >= minRowID is always true) and caches every row on the way"
+	c16KMaxRow      = "MaxRow answers from fragment.maxRowID (raised only by Set, never lowered by Clear/ClearRow, not raised by Import)"
+	c16KMinRowFilt  = "MinRow with filter scans only up to fragment.maxRowID (raised only by Set): rows written by Import are not seen"
+	c16KGBOffset    = "GroupBy limit+offset: limit is applied while reducing and offset afterwards (pages after the first come back short)"
+	c16KGBOffsetEnd = "GroupBy offset >= number of groups is ignored (the groups are returned from the start instead of an empty page)"
+	c16KTimeLimit   = "Rows(time field, from/to, limit): the limit budget is shared by the views of a shard (rows of later views are dropped)"
 )
 
 // ---------------------------------------------------------------------------------------------
@@ -599,9 +603,155 @@ const (
 type c16Call struct {
 	pql   string
 	judge func(v interface{}) (got, want, key string)
+	// guard != "": the call is a MaxRow with a filter on field `guard`; it is executed on its own under
+	// c16Guarded because a defect of fragment.maxRow can keep it from ever returning.
+	guard string
+	// skip: not executed at all (the confirmed MaxRow defect is predicted to strike)
+	skip bool
 }
 
-func c16RunCalls(c *vx.Check, e *c16Env, index, ds string, calls []c16Call) {
+// c16Guarded runs one query whose executor goroutine may never return. The verdict is state based,
+// not time based: either the call returns, or the row cache of a fragment of the field holds row
+// 2^64-1, which only a scan that wrapped below row 0 can have put there. In that case the harness
+// keeps the fragment lock for ever so that the runaway scan parks on it, and the node is abandoned.
+func c16Guarded(e *c16Env, index, field, q string) (res interface{}, wrapped bool) {
+	type out struct {
+		r   []interface{}
+		err error
+	}
+	done := make(chan out, 1)
+	go func() {
+		r, err := e.query(index, q)
+		done <- out{r, err}
+	}()
+	for spin := 0; ; spin++ {
+		select {
+		case o := <-done:
+			if o.err != nil || len(o.r) != 1 {
+				return fmt.Errorf("ERR %v", o.err), false
+			}
+			return o.r[0], false
+		default:
+		}
+		for sh := uint64(0); sh < 3; sh++ {
+			fr := e.srv.holder.fragment(index, field, viewStandard, sh)
+			if fr == nil {
+				continue
+			}
+			fr.mu.Lock()
+			if _, hit := fr.rowCache.Fetch(math.MaxUint64); hit {
+				return nil, true // lock intentionally kept
+			}
+			fr.mu.Unlock()
+		}
+		if spin < 50 {
+			runtime.Gosched()
+		} else {
+			time.Sleep(200 * time.Microsecond)
+		}
+	}
+}
+
+// c16Abandon removes a node whose executor worker is parked for ever from the bookkeeping.
+func c16Abandon(e *c16Env) {
+	c16PoolMu.Lock()
+	defer c16PoolMu.Unlock()
+	for i, x := range c16All {
+		if x == e {
+			c16All = append(c16All[:i], c16All[i+1:]...)
+			break
+		}
+	}
+}
+
+// c16ConfirmMaxRowWrap runs the minimal case of the MaxRow defect once (in the parent process only).
+func c16ConfirmMaxRowWrap(c *vx.Check) bool {
+	e := c16GetEnv()
+	index := e.newIndex(false)
+	if _, err := e.query(index, "Set(0, a=0)\nSet(1, b=3)"); err != nil {
+		panic(fmt.Sprintf("c16: confirm case: %v", err))
+	}
+	q := "MaxRow(Row(b=3), field=a)"
+	res, wrapped := c16Guarded(e, index, "a", q)
+	c.AddEval(1)
+	if wrapped {
+		c16Abandon(e)
+		c.Violate(c16KMaxRowHang, "Set(0, a=0) Set(1, b=3); query="+q, "the scan wrapped below row 0 (row 2^64-1 is in the fragment's row cache) and keeps going", "none")
+		return true
+	}
+	got := fmt.Sprintf("%T:%v", res, res)
+	if p, ok := res.(Pair); ok {
+		got = "none"
+		if p.Count > 0 {
+			got = fmt.Sprint(p.ID)
+		}
+	}
+	if got != "none" {
+		c.Violate("MaxRow wrong filter=row", "Set(0, a=0) Set(1, b=3); query="+q, got, "none")
+	}
+	e.dropIndex(index)
+	c16PutEnv(e)
+	return false
+}
+
+// c16MaxRowWraps predicts (from the confirmed defect) whether MaxRow(filter, field=f) would wrap.
+func c16MaxRowWraps(m *c16Model, f string, fcols map[uint64]struct{}) bool {
+	for sh := range m.frag[f] {
+		any, zero := false, false
+		for r, cs := range m.bits[f] {
+			for c := range cs {
+				if c/c16SW == sh {
+					any = true
+					if r == 0 {
+						zero = true
+					}
+				}
+			}
+		}
+		if !any || !zero {
+			continue // empty fragment: no scan; lowest row > 0: the scan stops below it
+		}
+		hit := false
+		for r := uint64(0); r <= m.hwm[f][sh] && !hit; r++ {
+			for c := range m.bits[f][r] {
+				if _, ok := fcols[c]; ok && c/c16SW == sh {
+					hit = true
+				}
+			}
+		}
+		if !hit {
+			return true
+		}
+	}
+	return false
+}
+
+// c16RunCalls executes the calls; it returns the node to continue with (a fresh one, with ok=false,
+// when a guarded call wrapped and the node had to be abandoned together with its index).
+func c16RunCalls(c *vx.Check, e *c16Env, index, ds string, calls []c16Call) (ok bool) {
+	var plain []c16Call
+	for _, cl := range calls {
+		if cl.skip {
+			continue
+		}
+		if cl.guard != "" {
+			res, wrapped := c16Guarded(e, index, cl.guard, cl.pql)
+			c.AddEval(1)
+			if wrapped {
+				c16Abandon(e)
+				c.Violate(c16KMaxRowHang, ds+" query="+cl.pql, "the scan wrapped below row 0 (row 2^64-1 is in the fragment's row cache) and keeps going", "a result")
+				return false
+			}
+			got, want, key := cl.judge(res)
+			c.Outcome(got)
+			if got != want {
+				c.Violate(key, ds+" query="+cl.pql, got, want)
+			}
+			continue
+		}
+		plain = append(plain, cl)
+	}
+	calls = plain
 	const batch = 128
 	for lo := 0; lo < len(calls); lo += batch {
 		hi := lo + batch
@@ -634,6 +784,7 @@ func c16RunCalls(c *vx.Check, e *c16Env, index, ds string, calls []c16Call) {
 		}
 	}
 	c.AddEval(int64(len(calls)))
+	return true
 }
 
 func c16RowsCalls(m *c16Model, c *vx.Check, removed map[string]string) []c16Call {
@@ -684,7 +835,7 @@ func c16RowsCalls(m *c16Model, c *vx.Check, removed map[string]string) []c16Call
 	return calls
 }
 
-func c16MinMaxCalls(m *c16Model) []c16Call {
+func c16MinMaxCalls(m *c16Model, wrapKnown bool) []c16Call {
 	var calls []c16Call
 	for _, f := range []string{"a", "b"} {
 		for fi, fl := range c16Filters {
@@ -718,7 +869,13 @@ func c16MinMaxCalls(m *c16Model) []c16Call {
 						want = fmt.Sprint(rows[len(rows)-1])
 					}
 				}
-				calls = append(calls, c16Call{pql: q, judge: func(v interface{}) (string, string, string) {
+				guard := ""
+				skip := false
+				if fn == "MaxRow" && fcols != nil {
+					guard = f
+					skip = wrapKnown && c16MaxRowWraps(m, f, fcols)
+				}
+				calls = append(calls, c16Call{pql: q, guard: guard, skip: skip, judge: func(v interface{}) (string, string, string) {
 					p, ok := v.(Pair)
 					if !ok {
 						return fmt.Sprintf("%T:%v", v, v), want, fn + " wrong result type"
@@ -792,20 +949,29 @@ func c16MinRowFilterDefect(m *c16Model, f string, fcols map[uint64]struct{}) str
 	return fmt.Sprint(best)
 }
 
+// c16GBDefect: what executeGroupBy does with limit/offset: limit while reducing, then offset only if
+// it is smaller than the number of groups left, then limit again. Classification only.
+func c16GBDefect(m *c16Model, g c16GB) []c16Group {
+	h := g
+	h.hasOffset = false
+	res := h.eval(m) // cursor + limit
+	if g.hasOffset && g.offset < len(res) {
+		res = res[g.offset:]
+	}
+	return res
+}
+
 func c16GBJudge(m *c16Model, g c16GB) func(v interface{}) (string, string, string) {
 	want := c16Groups(g.eval(m))
 	return func(v interface{}) (string, string, string) {
 		_, got := c16GotGroups(v)
 		key := "GroupBy wrong " + g.shape()
-		if got != want && g.hasLimit && g.hasOffset {
-			// defect model: first `limit` groups, then offset
+		if got != want && g.hasOffset && got == c16Groups(c16GBDefect(m, g)) {
 			h := g
-			h.hasOffset = false
-			first := h.eval(m)
-			if g.offset < len(first) {
-				first = first[g.offset:]
-			}
-			if c16Groups(first) == got {
+			h.hasOffset, h.hasLimit = false, false
+			if g.offset >= len(h.eval(m)) || !g.hasLimit {
+				key = c16KGBOffsetEnd
+			} else {
 				key = c16KGBOffset
 			}
 		}
@@ -948,12 +1114,22 @@ func c16Paging(c *vx.Check, e *c16Env, index, ds string, m *c16Model) {
 						key := "GroupBy paging limit+previous: concatenated pages differ from the unpaged list fields=" + strings.Join(ks, ",")
 						if how == "offset" {
 							key = "GroupBy paging limit+offset: concatenated pages differ from the unpaged list"
-							// defect model: only the first page (limit groups) is ever returned
-							first := full
-							if len(first) > L {
-								first = first[:L]
+							// defect model: every page is what c16GBDefect predicts for it
+							var pred []c16Group
+							pg := base
+							pg.kids = append([]c16RowsArgs(nil), base.kids...)
+							pg.hasLimit, pg.limit = true, L
+							po := 0
+							for pages := 0; pages < 40; pages++ {
+								page := c16GBDefect(m, pg)
+								if len(page) == 0 {
+									break
+								}
+								pred = append(pred, page...)
+								po += L
+								pg.hasOffset, pg.offset = true, po
 							}
-							if gs == c16Groups(first) {
+							if gs == c16Groups(pred) {
 								key = c16KGBOffset
 							}
 						}
@@ -965,7 +1141,7 @@ func c16Paging(c *vx.Check, e *c16Env, index, ds string, m *c16Model) {
 	}
 }
 
-func c16Part1(c *vx.Check, nbits int) {
+func c16Part1(c *vx.Check, nbits int, wrapKnown bool) {
 	type job struct {
 		mask   int
 		ghost  int
@@ -980,15 +1156,25 @@ func c16Part1(c *vx.Check, nbits int) {
 		}
 	}
 	c.Bound("part1_datasets", len(jobs))
-	vx.ParallelFor(len(jobs), func(i int) {
+	in := []byte{0}
+	if wrapKnown {
+		in[0] = 1
+	}
+	c.ProcFor(c.NextRunLabel(), len(jobs), in, func(in []byte, i int, _ func([]byte)) {
 		if c.Expired() {
 			return
 		}
+		wrapKnown := len(in) > 0 && in[0] == 1
 		j := jobs[i]
 		e := c16GetEnv()
-		defer c16PutEnv(e)
 		index := e.newIndex(false)
-		defer e.dropIndex(index)
+		alive := true
+		defer func() {
+			if alive {
+				e.dropIndex(index)
+				c16PutEnv(e)
+			}
+		}()
 		m := c16NewModel()
 		var desc []string
 		fail := func(err error) bool {
@@ -1026,9 +1212,11 @@ func c16Part1(c *vx.Check, nbits int) {
 		}
 		ds := fmt.Sprintf("write=%s bits=%v ghosts(a3@%d,b2@1)=%s", map[bool]string{true: "Set", false: "Import"}[j.viaSet], desc, c16SW+1, mode)
 		calls := c16RowsCalls(m, c, removed)
-		calls = append(calls, c16MinMaxCalls(m)...)
+		calls = append(calls, c16MinMaxCalls(m, wrapKnown)...)
 		calls = append(calls, c16GroupByCalls(m, c)...)
-		c16RunCalls(c, e, index, ds, calls)
+		if alive = c16RunCalls(c, e, index, ds, calls); !alive {
+			return
+		}
 		c16Paging(c, e, index, ds, m)
 		if j.mask != 0 || j.ghost != 0 {
 			c.Distinct(ds)
@@ -1036,7 +1224,7 @@ func c16Part1(c *vx.Check, nbits int) {
 		if i == 0 || i == len(jobs)-1 || i == len(jobs)/2 {
 			c.Sample(fmt.Sprintf("%s (%d calls + paging loops)", ds, len(calls)))
 		}
-	})
+	}, nil)
 }
 
 // ---------------------------------------------------------------------------------------------
@@ -1073,7 +1261,7 @@ func c16Part2(c *vx.Check) {
 		{"2020..2021", d(2020, 1), d(2021, 1)},
 	}
 	c.Bound("part2_datasets", 1<<uint(n))
-	vx.ParallelFor(1<<uint(n), func(mask int) {
+	c.ProcFor(c.NextRunLabel(), 1<<uint(n), nil, func(_ []byte, mask int, _ func([]byte)) {
 		if c.Expired() {
 			return
 		}
@@ -1176,9 +1364,22 @@ func c16Part2(c *vx.Check) {
 							got := c16GotRows(v)
 							key := "Rows(time) wrong args=" + strings.Join(shape, "+")
 							if got != want && ranged && l >= 0 {
-								key = c16KTimeLimit + "?"
-								// the answer is right once the limit is lifted: then the limit handling is what fails
-								key = c16KTimeLimit
+								// a limit problem: the answer is a sorted selection of at most `limit` rows of the
+								// right unlimited list (which the same query without limit returns correctly)
+								unl := map[string]bool{}
+								for _, r := range rows {
+									if p < 0 || r > uint64(p) {
+										unl[fmt.Sprint(r)] = true
+									}
+								}
+								fs := strings.Fields(strings.Trim(got, "[]"))
+								ok := len(fs) <= l
+								for _, f := range fs {
+									ok = ok && unl[f]
+								}
+								if ok {
+									key = c16KTimeLimit
+								}
 							}
 							return got, want, key
 						}})
@@ -1193,7 +1394,7 @@ func c16Part2(c *vx.Check) {
 		if mask == 1<<uint(n)-1 {
 			c.Sample(fmt.Sprintf("%s (%d calls)", ds, len(calls)))
 		}
-	})
+	}, nil)
 }
 
 func TestVerif_C16(t *testing.T) {
@@ -1202,7 +1403,11 @@ func TestVerif_C16(t *testing.T) {
 	defer c16CloseAll()
 	nb := c.Pick(5, 8)
 	c.Bound("candidate_bits", nb)
-	c16Part1(c, nb)
+	wrapKnown := false
+	if !vx.IsChild() {
+		wrapKnown = c16ConfirmMaxRowWrap(c)
+	}
+	c16Part1(c, nb, wrapKnown)
 	c16Part2(c)
 	c.Assume("single node, executor worker pool of 1; rows 0..3(4), three shards; GroupBy `previous` only as the cursor taken from the last group of a page (as documented)")
 	if c.Finish() != 0 {
